@@ -911,8 +911,9 @@ class Prop:
         self.run_scenarios(ctx, names, iters, seeds, "tsan")
         if ctx.stop() or ctx.quick():
             return
-        # the F26 regression detector needs many connection lifetimes (about 1 % of them hit the window)
-        self.run_scenarios(ctx, ["TcpConnection::mix"], 400, seeds, "tsan")
+        # the F26 regression detector needs many connection lifetimes (about 0.5 % of them hit the window; the corpus
+        # case runs 1500 at the run's seed in both tiers, here the derived seeds follow)
+        self.run_scenarios(ctx, ["TcpConnection::mix"], 1500, seeds[1:], "tsan")
         if ctx.stop():
             return
         self.run_scenarios(ctx, names, 8, [ctx.seed], "asan")
